@@ -201,7 +201,61 @@ def run(chk):
                 chk.violation("root requests %s do not stop at the first unavailable version %d" % (
                     reqs, final + 1), full)
         clientrun.check_correspondence(chk, s, impl, model)
+    newer_shipped_root(chk)
     return chk
+
+
+def newer_shipped_root(chk):
+    """The walk starts from the SHIPPED root, also when the datastore records an older root from an earlier cycle (an
+    application update ships root 2, the datastore still says 1): the root trusted at the end is never lower than the
+    shipped one, and keys the shipped root has revoked authorise nothing - whether the server offers 2.root.json or
+    withholds it, whether it serves metadata of the new epoch or replays the old one."""
+    scens, metas = [], []
+    for cs in (False, True):
+        for rotated in ("all-online", "timestamp", "root-and-online"):
+            for serves_root2 in (True, False):
+                for epoch in ("new", "old"):
+                    s = scen.Scen()
+                    r1 = s.root(version=1, cs=cs)
+                    new_roles = {"root": ([0], 1), "snapshot": ([1], 1), "targets": ([2], 1), "timestamp": ([3], 1)}
+                    if rotated in ("all-online", "root-and-online"):
+                        new_roles.update({"snapshot": ([5], 1), "targets": ([6], 1), "timestamp": ([7], 1)})
+                    else:
+                        new_roles["timestamp"] = ([7], 1)
+                    if rotated == "root-and-online":
+                        new_roles["root"] = ([4], 1)
+                    r2 = s.root(version=2, cs=cs, roles=new_roles, sigs=scen.valid(sorted({0} | set(new_roles["root"][0]))))
+                    old_signers = {"snapshot": [1], "targets": [2], "timestamp": [3]}
+                    new_signers = {k: list(new_roles[k][0]) for k in ("snapshot", "targets", "timestamp")}
+                    _, f_old = scen.simple_repo(s, cs=cs, root=r1, signers=old_signers, versions=(1, 1, 1, 1))
+                    _, f_new = scen.simple_repo(s, cs=cs, root=r1, signers=new_signers, versions=(2, 2, 2, 2))
+                    s.cycle(r1, f_old)                      # the datastore now records root 1
+                    second = dict(f_new if epoch == "new" else f_old)
+                    if serves_root2:
+                        second["2.root.json"] = {"doc": r2}
+                    s.cycle(r2, second)                     # the application now ships root 2
+                    scens.append(s)
+                    metas.append((cs, rotated, serves_root2, epoch))
+    results = clientrun.run_scenarios(chk, scens)
+    for s, (cs, rotated, serves_root2, epoch), (impl, model, mcase) in zip(scens, metas, results):
+        chk.seen(mcase, True)
+        chk.count("newer-shipped-root")
+        desc = {"family": "shipped root 2 over a datastore recording root 1", "consistent_snapshot": cs, "rotated": rotated,
+                "server_offers_2.root.json": serves_root2, "metadata_epoch": epoch,
+                "implementation": [clientrun.show_cycle(x) for x in impl] if isinstance(impl, list) else impl}
+        full = dict(desc, scenario=s.case())
+        if not isinstance(impl, list) or len(impl) != 2 or any(x[0][0] >= 900 for x in impl) or impl[0][0][0] != 0:
+            chk.broken("two-cycle scenario did not run", full)
+            continue
+        res = impl[1][0]
+        if res[0] == 0 and res[1] < 2:
+            chk.violation("the root trusted at the end (version %s) is lower than the shipped one (version 2)" % res[1], full)
+        if res[0] == 0 and epoch == "old":
+            chk.violation("metadata signed only by keys the shipped root has revoked was accepted", full)
+        if res[0] != 0 and epoch == "new":
+            chk.violation("a repository valid under the shipped root was refused: %s (the walk did not start from the shipped "
+                          "root)" % res, full)
+        clientrun.check_correspondence(chk, s, impl, model)
 
 
 def replay(path):
